@@ -21,11 +21,13 @@ import (
 	"runtime"
 	"runtime/debug"
 	"sort"
+	"strings"
 	"testing/synctest"
 	"time"
 
 	"github.com/ChainSafe/gossamer/dot/network"
 	"github.com/ChainSafe/gossamer/lib/common"
+	"github.com/ChainSafe/gossamer/lib/crypto/ed25519"
 	gp "github.com/ChainSafe/gossamer/lib/grandpa"
 	cu "github.com/ChainSafe/gossamer/verifsim/chainutil"
 	"github.com/ChainSafe/gossamer/verifsim/kernel"
@@ -181,6 +183,7 @@ func (n *gnode) startReal() {
 	}
 	time.Sleep(off)
 	wait()
+	n.disk.OnRead = func([]byte) error { n.seamInsideInitiateRound(); return nil }
 	n.svc.VerifTrackerStart()
 	time.Sleep(3 * time.Millisecond)
 	wait()
@@ -299,6 +302,7 @@ func (s *gsim) afterStepReal() {
 		}
 	}
 	s.checkSafety()
+	s.checkTalliesReal()
 	for _, n := range s.honest() {
 		s.rs.finPrev[n.id] = n.finHead()
 	}
@@ -328,6 +332,119 @@ func canonKey(raw []byte) string {
 		return fmt.Sprintf("C|%d|%d|%x|%d|%d|%v", m.Round, m.SetID, m.Vote.Hash, m.Vote.Number, len(m.Precommits), parts)
 	}
 	return fmt.Sprintf("O|%x", raw)
+}
+
+// seamInsideInitiateRound: the network handlers of a node run concurrently with its round driver. The
+// one place where that matters most is the change of rounds: initiateRound reads the block state
+// (no lock of the service held) before it takes the round lock, resets the votes and increments the
+// round. At those disk reads - reached by the node's own goroutine while the driver sleeps - the tape
+// may let a vote message that is in flight to this node be handled right there, as a network
+// goroutine scheduled at that instant would.
+func (n *gnode) seamInsideInitiateRound() {
+	s := n.s
+	if !s.real || s.inSeam || !n.running {
+		return
+	}
+	// only at the reads initiateRound makes with no lock held: its own GetHighestRoundAndSetID and the
+	// GetCurrentSetID of updateAuthorities (GetFinalisedHeader reads under the block state's lock)
+	var pcs [24]uintptr
+	cnt := runtime.Callers(3, pcs[:])
+	frames := runtime.CallersFrames(pcs[:cnt])
+	inside, stateFrame := false, ""
+	for {
+		f, more := frames.Next()
+		if stateFrame == "" && strings.Contains(f.Function, "/dot/state.") {
+			stateFrame = f.Function
+			if !strings.HasSuffix(stateFrame, ").GetHighestRoundAndSetID") && !strings.HasSuffix(stateFrame, ").GetCurrentSetID") {
+				return
+			}
+		} else if stateFrame != "" {
+			// the caller of that state function: initiateRound itself, or updateAuthorities called by it
+			if strings.HasSuffix(f.Function, "grandpa.(*Service).initiateRound") {
+				inside = true
+			} else if !strings.HasSuffix(f.Function, "grandpa.(*Service).updateAuthorities") {
+				return
+			}
+			if inside {
+				break
+			}
+		}
+		if !more {
+			break
+		}
+	}
+	if !inside {
+		return
+	}
+	var mine []int
+	for i, w := range s.pending {
+		if w.to == n.id {
+			mine = append(mine, i)
+		}
+	}
+	if len(mine) == 0 || !s.k.Bool(1, 3, "deliver-inside-initiate-round") {
+		return
+	}
+	i := mine[s.k.Choose(len(mine), "seam-message")]
+	w := s.pending[i]
+	cm := new(network.ConsensusMessage)
+	if err := cm.Decode(w.raw); err != nil || len(cm.Data) < 2 {
+		return
+	}
+	if m, err := gp.VerifDecodeMessage(cm); err != nil {
+		return
+	} else if _, ok := m.(*gp.VoteMessage); !ok {
+		return
+	}
+	s.pending = append(s.pending[:i], s.pending[i+1:]...)
+	s.inSeam = true
+	_, err := n.svc.VerifHandleNetworkBytes(peerOf(w.from), w.raw)
+	s.inSeam = false
+	s.k.Fault("vote-handled-inside-initiate-round")
+	s.k.Event("deliver-inside-initiate-round", "n%d<-%d err=%v", n.id, w.from, err != nil)
+}
+
+// checkTalliesReal: what a node counts is made of votes of its current round, and a voter that signed
+// one vote per round and stage is nobody's equivocator.
+func (s *gsim) checkTalliesReal() {
+	k := s.k
+	for _, n := range s.honest() {
+		if !n.running {
+			continue
+		}
+		round, setID := n.svc.VerifRound(), n.svc.VerifSetID()
+		for _, stage := range []gp.Subround{gp.VerifPrevote, gp.VerifPrecommit} {
+			votes := n.svc.VerifSignedVotes(stage)
+			for _, id := range sortedSigned(votes) {
+				sv := votes[id]
+				if id == pkb(s.keys[n.id]) {
+					continue // its own entry may be the primary proposal (another stage)
+				}
+				if !validSig(id, sv.Signature, stage, sv.Vote, round, setID) && !validSig(id, sv.Signature, gp.VerifPrimaryProposal, sv.Vote, round, setID) {
+					k.Violate(k.Prop, "tally", "vote-of-another-round-in-the-tally", "node %d counts, in round %d stage %d, a vote by %x for %s whose signature is not for this round and set", n.id, round, stage, id[:2], cu.Short(sv.Vote.Hash))
+				}
+			}
+			_, eqv := n.tallies(stage)
+			for j, other := range s.nodes {
+				if other == nil || other.amnesiac || other.restarted {
+					continue
+				}
+				if _, is := eqv[pkb(s.keys[j])]; is {
+					k.Violate(k.Prop, "tally", "honest-voter-taken-for-equivocator", "node %d counts voter %d as an equivocator in round %d stage %d, but that voter signed at most one vote per round and stage", n.id, j, round, stage)
+				}
+			}
+		}
+	}
+	k.Probe("real-driver-tallies-checked")
+}
+
+func sortedSigned(m map[ed25519.PublicKeyBytes]gp.SignedVote) []ed25519.PublicKeyBytes {
+	var out []ed25519.PublicKeyBytes
+	for id := range m {
+		out = append(out, id)
+	}
+	sort.Slice(out, func(i, j int) bool { return string(out[i][:]) < string(out[j][:]) })
+	return out
 }
 
 func firstLine(s string) string {
